@@ -3,6 +3,7 @@ import panics as P
 from cfg import cfg_of
 from flow import Taint, Tracker, callee_matches, field_reads, op_local, prep
 from rules import CallGuard, CallSink, CmpGuard, RetSink, REL_NEG, REL_SWAP, compare_sites, OrWrapperGuard
+from rules import is_forward
 from props.C04 import call_results
 
 META = {
@@ -113,7 +114,9 @@ def register_rules(R, pfx="C06"):
 
     # (2) gates
     G_MERGEABLE = CallGuard([RG + "::verify_is_mergeable"], ("Ok",), "verify_is_mergeable is Ok")
-    R.gate(pfx + ".merge", SR + "::merge", CallSink(*EXT), [[G_MERGEABLE]], descr="merge extends only a mergeable (same address+permissions) register")
+    from rules import union_sites, BlockSink as _BS
+    R.gate(pfx + ".merge", SR + "::merge", _BS(lambda b: sorted(union_sites(F, b)[0]), "ops.extend(other.ops) / insert loop"), [[G_MERGEABLE]],
+           descr="merge extends only a mergeable (same address+permissions) register")
     R.gate(pfx + ".verified_merge", SR + "::verified_merge", CallSink(*EXT),
            [[G_MERGEABLE], [CallGuard([SR + "::verify"], ("Ok",), "other.verify() is Ok")]],
            descr="verified_merge extends only after other.verify()")
@@ -137,14 +140,19 @@ def register_rules(R, pfx="C06"):
         # accepting returns: explicit Ok(()) and a forwarded verdict `_0 = verify_signature(..)`
         from rules import BlockSink
         ok_lits = BlockSink(lambda b: RetSink("Ok").blocks(b), "return Ok(())")
-        fwd_sig = BlockSink(lambda b: [x["id"] for x in b.blocks if x["term"]["k"] == "call" and not x["cleanup"] and callee_matches(x["term"], [VS]) and x["term"]["d"] == [0]],
+        fwd_sig = BlockSink(lambda b: [x["id"] for x in b.blocks if x["term"]["k"] == "call" and not x["cleanup"] and callee_matches(x["term"], [VS]) and is_forward(b, x["term"])],
                             "return op.verify_signature(..)")
-        fwd_other = [x for x in cro.blocks if x["term"]["k"] == "call" and not x["cleanup"] and x["term"]["d"] == [0] and not callee_matches(x["term"], [VS])
+        fwd_other = [x for x in cro.blocks if x["term"]["k"] == "call" and not x["cleanup"] and is_forward(cro, x["term"]) and not callee_matches(x["term"], [VS])
                      and not (x["term"]["ngen"] or "").endswith("FromResidual::from_residual")]  # the `?` error edge is not an accepting return
         if fwd_other:
             R.viol(pfx + ".check_op", "foreign-verdict", "check_register_op returns the verdict of %s" % fwd_other[0]["term"]["ncallee"], cro, fwd_other[0]["term"]["l"])
         if ok_lits.blocks(cro):
-            R.gate(pfx + ".check_op.ok", cro, ok_lits, [[g_any, g_perm], [g_any, g_sig]],
+            # "anyone can write" may also be read off the enum directly: `match &self.permissions { AnyoneCanWrite => …`
+            import tables as T_
+            from rules import FieldOptGuard
+            _pn = {v: k for k, v in (T_.variant_names(F, "ant_registers::permissions::Permissions") or {}).items()}
+            g_any2 = FieldOptGuard("permissions", ("AnyoneCanWrite#%d" % _pn.get("AnyoneCanWrite", 0),), "permissions is AnyoneCanWrite")
+            R.gate(pfx + ".check_op.ok", cro, ok_lits, [[g_any, g_any2, g_perm], [g_any, g_any2, g_sig]],
                    descr="Ok(()) only for an open register, or after permission and signature checks")
         if fwd_sig.blocks(cro):
             R.gate(pfx + ".check_op.sig", cro, fwd_sig, [[g_perm]], descr="the signature verdict is returned only for a permitted signer")
@@ -172,13 +180,13 @@ def register_rules(R, pfx="C06"):
     # (4) verify
     ver = R.body(pfx + ".verify", SR + "::verify")
     if ver is not None:
-        R.gate(pfx + ".verify.owner", ver, RetSink("Ok"), [[CallGuard(["blsttc::PublicKey::verify"], ("true",), "owner().verify(signature, bytes)")]],
+        R.gate(pfx + ".verify.owner", ver, RetSink("Ok", computed=True), [[CallGuard(["blsttc::PublicKey::verify"], ("true",), "owner().verify(signature, bytes)")]],
                descr="verify() is Ok only with a valid owner signature over the base register")
-        R.gate_reject(pfx + ".verify.ops", ver, RetSink("Ok"),
+        R.gate_reject(pfx + ".verify.ops", ver, RetSink("Ok", computed=True),
                       [CallGuard([RG + "::check_register_op"], ("Ok",), "check_register_op(op) is Ok"), OrWrapperGuard(F, _SizeGuard(F), RG + "::check_register_op")],
                       descr="verify() is Ok only if every op is permitted and within the size limit")
         from rules import ForallGuard
-        R.gate(pfx + ".verify.ops.every", ver, RetSink("Ok"), [[ForallGuard("ops", [RG + "::check_register_op"], ("Ok",), "every op of the register passed check_register_op")]],
+        R.gate(pfx + ".verify.ops.every", ver, RetSink("Ok", computed=True), [[ForallGuard("ops", [RG + "::check_register_op"], ("Ok",), "every op of the register passed check_register_op")]],
                descr="verify() is Ok only after *every* op was checked (none is skipped)")
     return locals().get("add"), locals().get("ver")
 
@@ -190,7 +198,7 @@ def run(R):
     if add is not None and ver is not None:
         prep(add); prep(ver)
         a = accept_relation(F, add, set(CallSink(*INS).blocks(add)), ops_len(add))
-        v = accept_relation(F, ver, set(RetSink("Ok").blocks(ver)), ops_len(ver))
+        v = accept_relation(F, ver, set(RetSink("Ok", computed=True).blocks(ver)), ops_len(ver))
         ok = a is not None and v is not None
         detail = {"add_op_accepts_when": a and "len %s %d" % (a[0], a[1]), "verify_accepts_when": v and "len %s %d" % (v[0], v[1])}
         if not ok:
@@ -425,6 +433,11 @@ def crdt_rules(R, pfx="C06"):
         ok = len(aps) == 1 and (aps[0]["term"]["args"][1][0] in ("cp", "mv")) and aps[0]["term"]["args"][1][1][0] in src_op and ".crdt_op" in aps[0]["term"]["args"][1][1] or \
             (len(aps) == 1 and any(st["d"] == [op_local(aps[0]["term"]["args"][1])] and st["rv"]["k"] == "use" and st["rv"]["a"][0] in ("cp", "mv") and st["rv"]["a"][1][0] in src_op
                                    and st["rv"]["a"][1][-1] == ".crdt_op" for b in ap.blocks for st in b["stmts"]))
+        if not ok and len(aps) == 1:
+            # … or a plain copy of it after a destructuring `let RegisterOp { crdt_op, .. } = op`
+            from flow import copy_root
+            root = copy_root(ap, aps[0]["term"]["args"][1])
+            ok = bool(root) and root[0] in src_op and root[-1] == ".crdt_op"
         if not ok:
             R.viol(pfx + ".crdt.apply", "apply-delegation", "RegisterCrdt::apply_op does not apply exactly the op's own CRDT node", ap, ap.lines[0])
         R.inst(pfx + ".crdt.apply", "K6 flows-to", "apply_op applies op.crdt_op whole to the MerkleReg", len(aps), ok)
@@ -469,7 +482,8 @@ def set_semantics_rules(R, pfx="C06"):
             continue
         prep(mb)
         oks = set(RetSink("Ok").blocks(mb))
-        ext = set(CallSink(*EXT).blocks(mb))
+        from rules import union_sites
+        ext = union_sites(F, mb)[1]     # `ops.extend(other.ops)`, or the end of `for op in other.ops { ops.insert(op) }`
         g = cfg_of(mb)
         # every Ok return is behind the extend (an accepting path that skips it leaves the union incomplete)
         bad = oks & g.reach((0,), avoid=ext)
